@@ -163,3 +163,72 @@ mod tests {
         assert!(!valid_guid(b"01234567-89ab-cdef-ABCD-EF0123456789"));
     }
 }
+
+// --------------------------------------------------------------------------
+// Generators of valid names
+
+use crate::prng::Rng;
+
+fn gen_element(rng: &mut Rng, allow_dash: bool, allow_leading_digit: bool) -> String {
+    let n = 1 + rng.usize_below(6);
+    let mut s = String::new();
+    for i in 0..n {
+        let c = loop {
+            let c = match rng.below(10) {
+                0 => '_',
+                1 => (b'0' + rng.below(10) as u8) as char,
+                2 => (b'A' + rng.below(26) as u8) as char,
+                3 if allow_dash => '-',
+                _ => (b'a' + rng.below(26) as u8) as char,
+            };
+            if i == 0 && c.is_ascii_digit() && !allow_leading_digit {
+                continue;
+            }
+            break c;
+        };
+        s.push(c);
+    }
+    s
+}
+
+pub fn gen_interface_name(rng: &mut Rng) -> String {
+    let n = 2 + rng.usize_below(3);
+    (0..n).map(|_| gen_element(rng, false, false)).collect::<Vec<_>>().join(".")
+}
+
+pub fn gen_member_name(rng: &mut Rng) -> String {
+    gen_element(rng, false, false)
+}
+
+pub fn gen_unique_name(rng: &mut Rng) -> String {
+    let n = 2 + rng.usize_below(2);
+    format!(":{}", (0..n).map(|_| gen_element(rng, true, true)).collect::<Vec<_>>().join("."))
+}
+
+pub fn gen_well_known_name(rng: &mut Rng) -> String {
+    let n = 2 + rng.usize_below(3);
+    (0..n).map(|_| gen_element(rng, true, false)).collect::<Vec<_>>().join(".")
+}
+
+pub fn gen_bus_name(rng: &mut Rng) -> String {
+    if rng.bool() {
+        gen_unique_name(rng)
+    } else {
+        gen_well_known_name(rng)
+    }
+}
+
+#[cfg(test)]
+mod gen_tests {
+    use super::*;
+    #[test]
+    fn generated_names_are_valid() {
+        let mut rng = Rng::new(5);
+        for _ in 0..2000 {
+            assert!(valid_interface_name(gen_interface_name(&mut rng).as_bytes()));
+            assert!(valid_member_name(gen_member_name(&mut rng).as_bytes()));
+            assert!(valid_unique_name(gen_unique_name(&mut rng).as_bytes()));
+            assert!(valid_well_known_name(gen_well_known_name(&mut rng).as_bytes()));
+        }
+    }
+}
